@@ -61,6 +61,8 @@ RULE = ("prob.small: EVERY p in {0,.1,..,1}^n, o in {0,1}^n, n<=3 (thorough: plu
         "prob.data: datasets with CDF columns and/or ensembles of 1..6 (thorough 10) members with missing members, "
         "quantile columns, pit, all 8 bin types, stored / unstored / nearly-equal thresholds x 20 metrics; prob.getp, "
         "prob.ensthr, prob.ensq, prob.field: the derivations alone; prob.pit, prob.quantile: PIT and quantile scores; "
+        "prob.sequence: 3..5 threshold-family scores on events sharing thresholds, one after the other on one Data "
+        "object, each compared with the model, the oracle and the same score computed on its own; "
         "non-trivial = finite reply")
 EXHAUSTIVE = {"quick": True, "thorough": True}
 EXHAUSTIVE_NOTE = ("all (p, o) in {0,.1,..,1}^n x {0,1}^n for n<=3 (11 154 vectors; thorough adds all 12 650 multisets of 4 "
@@ -236,6 +238,17 @@ def impl(op):
                 return _compute(a[1], build(D), iv)
             if a[0] == "pd":
                 return _compute(a[1], build(dec_ds(a[3])), dec_iv(a[2]))
+            if a[0] == "pdseq":
+                data = build(dec_ds(a[1]))
+                out = []
+                for name, iv in zip(a[2::2], a[3::2]):
+                    try:
+                        out.append(_compute(name, data, dec_iv(iv)))
+                    except SystemExit:
+                        out.append("ERR")
+                    except Exception as e:       # noqa: a crash of one score must not hide the others
+                        out.append("EXC:%s" % type(e).__name__)
+                return " ".join(out)
             if a[0] in ("thrf", "qntf"):
                 data = build(dec_ds(a[2]))
                 f = verif.field.Threshold(from_xr(a[1])) if a[0] == "thrf" else verif.field.Quantile(from_xr(a[1]))
@@ -729,6 +742,23 @@ def gen_ops(tier, rng):
         if D.get("pit") is not None:
             for m in PIT_FAMILY:
                 yield "prob.pit", "pd %s %s %s" % (m, enc_iv(-math.inf, math.inf, True, True), ds)
+    # ---- several scores one after the other on ONE Data object (a threshold plot, or one file and several scores):
+    # consecutive events share thresholds, so a score computed earlier has touched the columns a later one reads
+    for _ in range(120 if quick else 2500):
+        D = gen_dataset(rng, tier)
+        ts = sorted(t for t, _ in (D.get("thr") or []))
+        if D.get("ens") is not None:
+            ts = sorted(set(ts + [0.5, 1.0, 2.0]))
+        if len(ts) < 2:
+            continue
+        items = []
+        for _k in range(rng.choice([2, 3, 4])):
+            m = rng.choice(THRESHOLD_FAMILY)
+            i = rng.randrange(len(ts) - 1)
+            b = rng.choice(BINS if rng.random() < 0.4 else BINS[4:])
+            items += [m, enc_iv(*iv_of(b, ts[i], ts[i + 1]))]
+        items += items[:2]                # the first score once more, after the others
+        yield "prob.sequence", "pdseq %s %s" % (enc_ds(D), " ".join(items))
     # ---- PIT statistics and pinball loss on vectors
     for _ in range(80 if quick else 2000):
         L = rng.choice([1, 2, 3, 5, 10, 30])
@@ -810,6 +840,9 @@ def spec_op(op):
 
 def cmp(op, impl_out, model_out):
     a = op.split(" ")
+    if a[0] == "pdseq":
+        items, it, mt = _seq_items(a), impl_out.split(" "), model_out.split(" ")
+        return len(items) == len(it) == len(mt) and all(cmp(o, x, y) for o, x, y in zip(items, it, mt))
     if a[0] in ("edges", "probperfect"):
         return impl_out == model_out
     tol = 1e-9
@@ -831,6 +864,11 @@ def cmp(op, impl_out, model_out):
     return tokens_close(impl_out, model_out, tol, tol)
 
 
+def _seq_items(a):
+    """the stand-alone `pd` op of every member of a `pdseq` op"""
+    return ["pd %s %s %s" % (name, iv, a[1]) for name, iv in zip(a[2::2], a[3::2])]
+
+
 def _sig(kind, metric, **kw):
     d = {"kind": kind, "metric": metric}
     d.update(kw)
@@ -849,6 +887,20 @@ def _judge_scores(name, o, p, tok, tol, where):
 
 def judge(op, impl_out, spec_out):
     a = op.split(" ")
+    if a[0] == "pdseq":
+        items, toks = _seq_items(a), impl_out.split(" ")
+        if len(items) != len(toks):
+            return (_sig("exception", "pdseq"), "unexpected reply %s" % impl_out[:200])
+        for k, (item, tok) in enumerate(zip(items, toks)):
+            where = "score %d of the sequence %s on one Data object" % (k + 1, " ".join(a[2:]))
+            r = judge(item, tok, None)
+            if r:
+                return (dict(r[0], layer="sequence"), "%s: %s" % (where, r[1]))
+            alone = impl(item)            # the same score on a Data object of its own
+            if not (tok == alone or _close(tok, alone, 1e-12)):
+                return (_sig("history-dependence", item.split(" ")[1]),
+                        "%s gives %s, the same score computed on its own gives %s (dataset %s)" % (where, tok, alone, a[1][:300]))
+        return None
     metric = a[1] if a[0] in ("prob", "pd", "probperfect") else a[0]
     if impl_out.startswith("EXC:") or impl_out.startswith("EXIT:"):
         return (_sig("exception", metric), "%s ended in %s" % (op[:200], impl_out))
